@@ -295,7 +295,9 @@ def run(ctx):
         "strict-num / tiny-skia-path constructors are modelled over the xq domain and compared with the real constructors (ctor correspondence)",
         "native stack use and CPU time are observed by the harness workers (signal / timeout / clock_gettime), not proved",
         "tools/gen_totality.py (regex scanner: constructor bodies, guards in front of unwrap sites, loops, cache lookup sites); loop ledger classes "
-        "LCounter / LGenId / LOwned / LReviewed of coq/Proofs/Totality.v are NOT proved; `for` loops and recursion are not listed",
+        "LCounter / LOwned / LReviewed, recursion ledger classes RGuarded / RStructural / RNameClash / RReviewed and iterator class ITree of "
+        "coq/Proofs/Totality.v are NOT proved; the call graph matches calls by name (over-approximation; trait-object / closure calls are not seen)",
+        "id generators (C01_gen_id_terminates): names are read as injective in the counter and the hash set of converter.rs as a set of names",
         "cache linearity (C01_cached_conversions_linear) is about sequential requests: re-entrancy is excluded by C03's acyclicity theorems, not here",
     ]
     ctx.assumptions = [
@@ -562,7 +564,7 @@ def run(ctx):
             ctx.violation("C01 proof obligations no longer check: %s %s" % (res['failed'] + res['audit'], [b['name'] + ': ' + b['err'][:300] for b in broken]),
                           dict(failed_files=res['failed'], audit=res['audit'], broken_ties=broken, log_tail=res['log'][-3000:],
                                hint="a new or changed panic site has no entry in coq/Proofs/Ledger.v (see coq/Gen/Sites.lines.txt); or a loop has no / a "
-                                    "stale entry in the loop ledger of coq/Proofs/Totality.v (see coq/Gen/Loops.lines.txt); or a guard no longer covers "
+                                    "stale entry in the loop / recursion / iterator ledger of coq/Proofs/Totality.v (see coq/Gen/Loops.lines.txt, Gen/Totality.v parser_recursions); or a guard no longer covers "
                                     "a constructor's reject list / a cache lookup site changed (coq/Gen/Totality.v)"),
                           found_input=False)
         else:
@@ -604,9 +606,13 @@ def ledger_stats(ctx):
     try:
         tsrc = open(os.path.join(vlib.COQ, 'Proofs', 'Totality.v')).read()
         tsrc = tsrc[tsrc.find('Definition loop_ledger'):]
+        lsrc = tsrc[:tsrc.find('Definition rec_ledger')] if 'Definition rec_ledger' in tsrc else tsrc
     except OSError:
         tsrc = ''
-    ctx.cov['loop_ledger'] = {k: len(re.findall(r',\s*%s\b' % k, tsrc)) for k in ('LVisited', 'LFinder', 'LCounter', 'LGenId', 'LOwned', 'LReviewed')}
+    ctx.cov['loop_ledger'] = {k: len(re.findall(r',\s*%s\b' % k, lsrc if tsrc else '')) for k in ('LVisited', 'LFinder', 'LCounter', 'LGenId', 'LOwned', 'LReviewed')}
+    rsrc = tsrc[tsrc.find('Definition rec_ledger'):] if 'Definition rec_ledger' in tsrc else ''
+    ctx.cov['recursion_ledger'] = {k: len(re.findall(r',\s*%s\b' % k, rsrc)) for k in ('RDepthProved', 'RGuarded', 'RStructural', 'RNameClash', 'RReviewed')}
+    ctx.cov['iterator_ledger'] = {k: len(re.findall(r',\s*%s\b' % k, rsrc)) for k in ('IHrefProved', 'ITree', 'IReviewed')}
     ctx.cov['ledger_proved'] = n_guard + n_auto_index
     ctx.cov['ledger_const'] = n_auto_ctor + n_const
     ctx.cov['ledger_reviewed'] = len(reviewed)
@@ -759,16 +765,42 @@ def build_corr(ctx, binp, quick):
             return
         impl = 'None' if 'error' in r else '(Some %d%%Z)' % r['n']
         pairs.append("(%s, %s)" % (G3.to_coq(d, G3.Names()), impl))
-    body = ("From Coq Require Import ZArith NArith List.\nImport ListNotations.\n"
-            "Definition cases : list (xnode * option Z) := [\n%s\n].\n"
-            "Eval vm_compute in (bad_idx (fun p => let b := build (fst p) in match snd b, snd p with\n"
-            "   | OOk _, Some n => Z.eqb (b_count (fst b)) n | OErr _, None => true | _, _ => false end) cases).\n"
-            % ";\n".join(pairs))
-    rc, out = ctx.coq_eval('k_build', body, ['Gen.Consts', 'Gen.LinkGuards', 'Model.SvgBuild', 'Model.Links', 'Model.LinksChk'], timeout=600)
-    bad = ctx.parse_N_list(out) if rc == 0 else None
-    if bad is None:
-        ctx.violation("model evaluation for the svgtree-build correspondence failed", dict(log=out[-1500:]), found_input=False)
-        return
+    # The evaluation is sharded (thorough: the 513-use chain and the ~1020-deep nestings make one vm_compute of all cases take
+    # 6-9 min and 3 GB, close to the 600 s limit of coq_eval; measured 2026-10-01): shards of similar total term size are
+    # evaluated by concurrent coqc processes and the failing indices are mapped back.
+    import concurrent.futures as cf
+    nshards = 1 if quick else 6
+    order = sorted(range(len(pairs)), key=lambda i: -len(pairs[i]))
+    shards, load = [[] for _ in range(nshards)], [0] * nshards
+    for i in order:
+        k = load.index(min(load))
+        shards[k].append(i)
+        load[k] += len(pairs[i])
+
+    def eval_shard(k):
+        idxs = shards[k]
+        if not idxs:
+            return []
+        body = ("From Coq Require Import ZArith NArith List.\nImport ListNotations.\n"
+                "Definition cases : list (xnode * option Z) := [\n%s\n].\n"
+                "Eval vm_compute in (bad_idx (fun p => let b := build (fst p) in match snd b, snd p with\n"
+                "   | OOk _, Some n => Z.eqb (b_count (fst b)) n | OErr _, None => true | _, _ => false end) cases).\n"
+                % ";\n".join(pairs[i] for i in idxs))
+        rc, out = ctx.coq_eval('k_build' if nshards == 1 else 'k_build_%d' % k, body,
+                               ['Gen.Consts', 'Gen.LinkGuards', 'Model.SvgBuild', 'Model.Links', 'Model.LinksChk'], timeout=600)
+        got = ctx.parse_N_list(out) if rc == 0 else None
+        return None if got is None else [idxs[j] for j in got], out
+    with cf.ThreadPoolExecutor(max_workers=nshards) as ex:
+        results = list(ex.map(eval_shard, range(nshards)))
+    bad = []
+    for r in results:
+        if r == []:
+            continue
+        if r[0] is None:
+            ctx.violation("model evaluation for the svgtree-build correspondence failed", dict(log=r[1][-1500:]), found_input=False)
+            return
+        bad += r[0]
+    bad.sort()
     ctx.cov['build_corr_cases'] = len(pairs)
     for b in bad[:3]:
         ctx.violation("svgtree construction: model and implementation disagree on the node count / limit error for %s" % docs[b][0],
